@@ -16,7 +16,7 @@ def run(R, job):
     n = job.get("n", 300)
     fails, checked, distinct, samples = [], 0, set(), []
     names = ["x", "x_", "x__", "a_b", "a-b", "class_", "class", "data_foo_bar", "_", "for_", "id"]
-    vals = ["v", "", "a b", True, False, None, 3, 2.5, 0, "w&<", HTML("<h>"), HTML("")]
+    vals = ["v", "", "a b", True, False, None, 3, 2.5, 0, "w&<", HTML("<h>"), HTML(""), 3.14159265, 1234567.5, 0.1 + 0.2, 1e21, 1e-7, 2.0, -0.0, 10 ** 20, float("inf")]
 
     def text(v):
         return "" if v is True else str(v) if not isinstance(v, str) and not isinstance(v, HTML) else v
